@@ -14,6 +14,21 @@ from progs import Program
 SEED = 1   # set by ./check from --seed / VERIF_SEED
 
 
+from common import REPO as REPO_
+
+# Sources of /repo that have no crate boundary are included by path into the harness binaries.
+RM_MAIN = """#[allow(dead_code)]
+#[path = "%s/crates/lexgen/src/range_map.rs"]
+mod range_map;
+include!("%s/src/main_rangemap.rs");
+"""
+CRG_MAIN = """#[allow(dead_code)]
+#[path = "%s/crates/char_range_gen/src/main.rs"]
+mod crg;
+include!("%s/src/%s");
+"""
+
+
 class Outcome:
     def __init__(self, pid, level="model_checking"):
         self.pid = pid
@@ -1097,7 +1112,7 @@ def check_C11(tier, seed):
         raise ToolError("TLC found an error in RangeMap.tla itself:\n" + str(tlc.error))
     trs = tlc.tagged.get("TR", [])
     ws = Workspace("C11")
-    ws.add_crate("c11_rangemap", 'include!("%s/src/main_rangemap.rs");\n' % HARNESS)
+    ws.add_crate("c11_rangemap", RM_MAIN % (REPO_, HARNESS))
     ok, err = ws.build()
     if not ok:
         raise ToolError("range map harness does not build:\n" + err[-2000:])
@@ -1199,7 +1214,7 @@ def check_C18(tier, seed):
         raise ToolError("TLC: CharRangeGen.tla termination failed:\n" + str(live.error))
     cases = tlc.tagged.get("CRG", [])
     ws = Workspace("C18")
-    ws.add_crate("c18_crg", 'include!("%s/src/main_crg.rs");\n' % HARNESS,
+    ws.add_crate("c18_crg", CRG_MAIN % (REPO_, HARNESS, "main_crg.rs"),
                  deps='serde_json = "1"\nunicode-xid = "0.2.2"\n')
     ok, err = ws.build()
     if not ok:
@@ -1381,7 +1396,7 @@ def check_C13(tier, seed):
         os.makedirs(d, exist_ok=True)
         with open(os.path.join(d, "generated.rs"), "w") as f:
             f.write(text)
-        ws.add_crate(name, 'mod generated;\ninclude!("%s/src/main_builtin.rs");\n' % HARNESS,
+        ws.add_crate(name, "mod generated;\n" + CRG_MAIN % (REPO_, HARNESS, "main_builtin.rs"),
                      deps='serde_json = "1"\nunicode-xid = "0.2.2"\nlexgen = { path = "%s/crates/lexgen" }\nlexgen_util = { path = "%s/crates/lexgen_util" }\n' % (
                          __import__("common").REPO, __import__("common").REPO))
         names.append(name)
@@ -2391,7 +2406,7 @@ def replay(pid, path):
     if kind == "rangemap":
         from common import Workspace, run_parallel, BUILD, HARNESS
         ws = Workspace(pid + "_replay")
-        ws.add_crate("c11r_rangemap", 'include!("%s/src/main_rangemap.rs");\n' % HARNESS)
+        ws.add_crate("c11r_rangemap", RM_MAIN % (REPO_, HARNESS))
         ok, err = ws.build()
         if not ok:
             raise ToolError(err[-1000:])
